@@ -177,6 +177,30 @@ def case_strategy(draw, tier):
         r["illtyped"] = why
         r["anytype"] = True  # no dynamic claim for these
         case["recipe"] = r
+    elif draw(st.integers(0, 9)) == 0 and r["main"][0] == "seq" and len(r["main"][1]) < 200 and r.get("level", 6) >= 4:
+        # an ill-typed ROUTINE: declared to return a value (uint64 / bytes / anytype) although some path returns nothing
+        ret = draw(st.sampled_from(["A", "A", "U", "B"]))
+        val = ["int", 7] if ret != "B" else ["bytes", "07"]
+        cond = ["bin", "Lt", ["txn", "fee"], ["int", 5]]
+        k = draw(st.integers(0, 4))
+        if k == 0:
+            why, body = "routine-falls-off-after-If-Then-Return", ["if", cond, ["return", val], None, "then"]
+        elif k == 1:
+            why, body = "routine-bare-Return", ["seq", [["pop", ["int", 1]], ["return", None]]]
+        elif k == 2:
+            why, body = "routine-bare-Return-in-one-arm", ["if", cond, ["return", val], ["return", None], "then"]
+        elif k == 3:
+            why, body = "routine-body-is-none", ["seq", [["pop", ["int", 1]]]]
+        else:
+            why, body = "routine-falls-off-after-ElseIf-chain", ["if", cond, ["return", val], ["if", ["un", "Not", cond], ["return", val], None, "then"], "elseif"]
+        r = dict(r, routines=list(r.get("routines", [])) + [{"name": "illr", "kind": "sub", "params": [], "ret": ret, "locals": {}, "body": body, "may_call": []}])
+        items = list(r["main"][1])
+        pos = draw(st.integers(0, max(0, len(items) - 1)))
+        items = items[:pos] + [["pop", ["call", len(r["routines"]) - 1, []]]] + items[pos:]
+        r["main"] = ["seq", items]
+        r["illtyped"] = "%s(declared %s)" % (why, ret)
+        r["anytype"] = True
+        case["recipe"] = r
     return case
 
 
